@@ -256,6 +256,9 @@ func cmdRun(args []string) {
 			// diagnostics only (never a decision): which scenarios are expensive
 			fmt.Fprintf(os.Stderr, "slow run: %s lane=%s worker=%d run=%d took %.0fs steps=%d skipped=%q\n", *prop, *lane, *worker, run, d.Seconds(), res.Steps, res.Skipped)
 		}
+		if res.Premise != "" {
+			fmt.Fprintf(os.Stderr, "premise failed: %s lane=%s worker=%d run=%d: %s\n", *prop, *lane, *worker, run, clip(res.Premise, 300))
+		}
 		stats.add(res)
 		if *evlog {
 			stats.EvHashes = append(stats.EvHashes, fmt.Sprintf("%d:%016x:%d", run, res.EvHash, res.Steps))
